@@ -301,6 +301,11 @@ Definition dispatch (op : bop) (a b : pyval) : G pyval :=
                    | PInt y, OLt => ret (PInt (if x <? y then 1 else 0)) | PInt y, OLe => ret (PInt (if x <=? y then 1 else 0))
                    | PInt y, OGt => ret (PInt (if y <? x then 1 else 0)) | PInt y, OGe => ret (PInt (if y <=? x then 1 else 0))
                    | PInt y, OEq => ret (PInt (if x =? y then 1 else 0)) | PInt y, ONe => ret (PInt (if x =? y then 0 else 1))
+                   | PInt y, OAnd => ret (PInt (Z.land x y)) | PInt y, OOr => ret (PInt (Z.lor x y)) | PInt y, OXor => ret (PInt (Z.lxor x y))
+                   | PInt y, OFloorDiv => if y =? 0 then static_raise ZeroDivisionError else ret (PInt (x / y))
+                   | PInt y, OMod => if y =? 0 then static_raise ZeroDivisionError else ret (PInt (x mod y))
+                   | PInt y, OLshift => if y <? 0 then static_raise ValueError else if 100000 <? y then static_raise RuntimeError else ret (PInt (x * 2 ^ y))
+                   | PInt y, ORshift => if y <? 0 then static_raise ValueError else ret (PInt (Z.shiftr x y))
                    | _, _ => NI end
        | PLC x => lc_dunder op x b
        | PBool _ x => bool_dunder op x b
